@@ -292,7 +292,8 @@ def dvh(release=False, limit_as=None):
 
 
 def model():
-    return Proc([MODEL])
+    # deep non-tail recursion on long bit lists needs a large stack
+    return Proc(["bash", "-c", "ulimit -s unlimited 2>/dev/null || ulimit -s 1000000; exec %s" % MODEL])
 
 
 def run_sharded(proc_factory, lines, shards=16, timeout=900):
